@@ -39,7 +39,19 @@ def via_json(resps):
     return [OperationLogResponse.model_validate(json.loads(json.dumps(r.model_dump(mode="json")))) for r in resps]
 
 
+def outcome(fn):
+    """result of a run as comparable data: the dumped responses, or the exception class when it raises
+    (a plan text the grammar rejects, e.g. an empty body, raises in the full and the incremental run alike)"""
+    try:
+        return dump(fn())
+    except Exception as e:
+        return {"raised": type(e).__name__}
+
+
 def first_diff(a, b):
+    if isinstance(a, dict) or isinstance(b, dict):
+        return None if a == b else {"what": "one run raised", "incremental": a if isinstance(a, dict) else "ok",
+                                    "full": b if isinstance(b, dict) else "ok"}
     if len(a) != len(b):
         return {"what": "number of responses", "incremental": len(a), "full": len(b)}
     for i, (x, y) in enumerate(zip(a, b)):
@@ -146,14 +158,10 @@ def unit(job, variant, pi, seed, n_edits, chain_len, want_model):
         kind = label.split("@")[0]
         out["labels"][kind] = out["labels"].get(kind, 0) + 1
         new_text = plan_text(job, variant, new)
-        full = dump(run_plan(new_text))
+        full = outcome(lambda: run_plan(new_text))
         for mode, h in (("memory", hist), ("json", via_json(hist))):
             out["pairs"] += 1
-            try:
-                inc = dump(run_plan_with_hint(prev_text, h, new_text))
-                d = first_diff(inc, full)
-            except Exception as e:
-                d = {"what": f"exception {type(e).__name__}: {e}"}
+            d = first_diff(outcome(lambda: run_plan_with_hint(prev_text, h, new_text)), full)
             if d is not None:
                 out["failing"].append({"kind": "hint-differs", "job": job, "variant": variant, "hint": mode,
                                        "edit": label, "previous_plan": base, "new_plan": new, "first_difference": d})
@@ -163,10 +171,7 @@ def unit(job, variant, pi, seed, n_edits, chain_len, want_model):
                             ("other-environment", plan_text(job, (variant + 1) % 3, base[:15]))):
         out["pairs"] += 1
         out["labels"][label] = out["labels"].get(label, 0) + 1
-        try:
-            d = first_diff(dump(run_plan_with_hint(prev_text, hist, new_text)), dump(run_plan(new_text)))
-        except Exception as e:
-            d = {"what": f"exception {type(e).__name__}: {e}"}
+        d = first_diff(outcome(lambda: run_plan_with_hint(prev_text, hist, new_text)), outcome(lambda: run_plan(new_text)))
         if d is not None:
             out["failing"].append({"kind": "hint-differs", "job": job, "edit": label, "previous_plan": base,
                                    "first_difference": d})
@@ -175,12 +180,14 @@ def unit(job, variant, pi, seed, n_edits, chain_len, want_model):
     chain_plans = [base]
     for step in range(chain_len):
         label, new = rng.choice(all_edits) if step else rng.choice([e for e in all_edits if e[0] != "empty"])
-        new = edits(rng, cur_lines, names, delay_skill)[rng.randint(0, 12)][1] if step else new
+        new = rng.choice(edits(rng, cur_lines, names, delay_skill))[1] if step else new
         new_text = plan_text(job, variant, new)
         out["chains"] += 1
+        if not new:
+            continue            # an empty body is not a plan the grammar accepts (covered by the pair edits)
         try:
             inc = run_plan_with_hint(cur_text, cur_hist if step % 2 == 0 else via_json(cur_hist), new_text)
-            d = first_diff(dump(inc), dump(run_plan(new_text)))
+            d = first_diff(dump(inc), outcome(lambda: run_plan(new_text)))
         except Exception as e:
             inc, d = None, {"what": f"exception {type(e).__name__}: {e}"}
         if d is not None:
